@@ -108,6 +108,7 @@ class Fn:
         self.skip_prefixes = tuple(spec.get('skip_calls', ['logger.']))
         self.mut = set(spec.get('mutable', []))
         self.declared = set()
+        self.for_depth = 0
         self.lines = []
 
     # ---------------------------------------------------------------- expressions
@@ -161,6 +162,21 @@ class Fn:
         if isinstance(n, ast.BinOp) and isinstance(n.op, (ast.Add, ast.Sub, ast.Mult)):
             op = {ast.Add: '+', ast.Sub: '-', ast.Mult: '*'}[type(n.op)]
             return '(%s %s %s)' % (self.expr(n.left), op, self.expr(n.right))
+        if isinstance(n, ast.BinOp) and isinstance(n.op, ast.Mod) and isinstance(n.left, ast.Constant) and \
+                isinstance(n.left.value, str):
+            # '%s + %s' % (a, b): every argument must translate to a Lean String
+            args = n.right.elts if isinstance(n.right, ast.Tuple) else [n.right]
+            return '(Py.fmt %s [%s])' % (lean_str(n.left.value), ', '.join(self.expr(a) for a in args))
+        if isinstance(n, ast.JoinedStr):
+            parts = []
+            for v in n.values:
+                if isinstance(v, ast.Constant):
+                    parts.append(lean_str(v.value))
+                elif isinstance(v, ast.FormattedValue) and v.conversion == -1 and v.format_spec is None:
+                    parts.append(self.expr(v.value))
+                else:
+                    raise TranslationError('no rule for the f-string part `%s`' % src(v))
+            return '(' + ' ++ '.join(parts or ['""']) + ')'
         if isinstance(n, ast.IfExp):
             return '(if %s then %s else %s)' % (self.cond(n.test), self.expr(n.body), self.expr(n.orelse))
         if isinstance(n, ast.Attribute):
@@ -172,6 +188,9 @@ class Fn:
             f = n.func
             if isinstance(f, ast.Name) and f.id in self.spec.get('local_functions', []) and not n.keywords:
                 return '(%s %s)' % (mangle(f.id), ' '.join(self.expr(a) for a in n.args))
+            if isinstance(f, ast.Attribute) and f.attr == 'join' and isinstance(f.value, ast.Constant) and \
+                    isinstance(f.value.value, str) and len(n.args) == 1 and not n.keywords:
+                return '(String.intercalate %s %s)' % (lean_str(f.value.value), self.expr(n.args[0]))
             if isinstance(f, ast.Name) and f.id == 'len' and len(n.args) == 1:
                 return '(%s).length' % self.expr(n.args[0])
             if isinstance(f, ast.Name) and f.id in ('all', 'any') and len(n.args) == 1 and \
@@ -384,6 +403,9 @@ class Fn:
             return
         if isinstance(s, ast.Raise):
             exc = s.exc
+            if exc is None:
+                self.emit(ind, 'throw e__')
+                return
             name = src(exc.func) if isinstance(exc, ast.Call) else src(exc) if exc is not None else 'reraise'
             self.emit(ind, 'throw (PyErr.mk %s)' % lean_str(name.split('.')[-1]))
             return
@@ -398,11 +420,42 @@ class Fn:
             self.emit(ind, 'for %s in %s do' % (self.target_text(s.target), self.expr(s.iter)))
             saved = set(self.declared)
             self.declared.update(self.target_names(s.target))
+            self.for_depth += 1
             self.stmts(s.body, ind + 1)
+            self.for_depth -= 1
             self.declared = saved
+            return
+        if isinstance(s, (ast.Continue, ast.Break)) and self.for_depth > 0:
+            self.emit(ind, 'continue' if isinstance(s, ast.Continue) else 'break')
             return
         if isinstance(s, ast.Continue) and 'loop_state' in self.spec:
             self.emit(ind, 'return %s' % self.state_tuple())
+            return
+        if isinstance(s, ast.Try) and not s.finalbody and not s.orelse and s.handlers:
+            # try: body  except E [as e]: handler   ->   try body catch e__ => if e__.cls == "E" then handler else throw e__
+            self.emit(ind, 'try')
+            saved = set(self.declared)
+            self.stmts(s.body, ind + 1)
+            self.declared = set(saved)
+            self.emit(ind, 'catch e__ =>')
+            first = True
+            for h in s.handlers:
+                if h.type is None:
+                    names = None
+                elif isinstance(h.type, ast.Tuple):
+                    names = [src(e).split('.')[-1] for e in h.type.elts]
+                else:
+                    names = [src(h.type).split('.')[-1]]
+                if names is None or names == ['Exception']:
+                    test = 'true'
+                else:
+                    test = '(' + ' || '.join('e__.cls == %s' % lean_str(x) for x in names) + ')'
+                self.emit(ind + 1, '%s %s then' % ('if' if first else 'else if', test))
+                self.stmts(h.body, ind + 2)
+                self.declared = set(saved)
+                first = False
+            self.emit(ind + 1, 'else')
+            self.emit(ind + 2, 'throw e__')
             return
         raise TranslationError('no rule and no pattern for the statement `%s` (%s, line %s)'
                                % (src(s).split('\n')[0], type(s).__name__, getattr(s, 'lineno', '?')))
